@@ -1,10 +1,10 @@
 package main
 
 import (
-	"math"
 	"bytes"
 	"encoding/json"
 	"fmt"
+	"math"
 	"strings"
 
 	"verifharness/internal/gen"
@@ -253,6 +253,49 @@ func c18Expand(c *ctx, i int, r *rng.R) {
 	}
 }
 
+// c18Partial: some of a message's ellipses are expanded, at least two remain. Only the item tree changes, and the
+// remaining ellipses carry the names a caller can address next: "...[0]", "...[1]", .. in order of appearance -
+// whatever was expanded earlier in the process.
+func c18Partial(c *ctx, i int, r *rng.R) {
+	g := gen.New(r, gen.Profile{MaxDepth: 2 + r.Intn(3), Vars: true, Ellipsis: true, PlainNames: true, Budget: 120, MaxKids: 4, MaxElems: 2})
+	tpl := g.Tree()
+	var ells []string
+	for _, v := range tpl.Vars() {
+		if ref.IsEllipsisName(v) {
+			ells = append(ells, v)
+		}
+	}
+	if tpl.Kind != ref.L || len(ells) < 3 {
+		return
+	}
+	counts := map[string]int{}
+	raw := map[string]interface{}{}
+	k := ells[r.Intn(len(ells))]
+	counts[k] = r.Intn(3)
+	raw[k] = counts[k]
+	m := g.Msg(tpl, false)
+	var msg, got *ast.DataMessage
+	if o := real.Try(func() { msg = real.BuildMsg(m) }); o.Panicked {
+		return
+	}
+	if o := real.Try(func() { got = msg.FillVariables(raw) }); o.Panicked {
+		return
+	}
+	want := *m
+	want.Item = ref.Expand(tpl, counts)
+	cs := c18Case{Msg: m, Ops: []prodOp{{Kind: "expand-some"}}}
+	c.Class("producer/expand-some-ellipses")
+	c.Note(rng.HashStr(ref.PrintMsg(m)+k), true)
+	snap := real.Snap(got)
+	if d := frameDiff(snap, &want); d != "" {
+		c.Violation("C18/frame/expand-some-ellipses", fmt.Sprintf("%s; template %s counts %v", d, clipS(ref.PrintMsg(m)), counts), cs)
+		return
+	}
+	if d := ref.EllipsisNamesOK(snap.Vars, true); d != "" {
+		c.Violation("C18/frame/remaining-ellipsis-names", fmt.Sprintf("after expanding %s the remaining ellipses are named %q: %s; template %s", k, snap.Vars, d, clipS(ref.PrintMsg(m))), cs)
+	}
+}
+
 func c18Eval(c *ctx, cs c18Case) {
 	var cur *ast.DataMessage
 	if o := real.Try(func() { cur = real.BuildMsg(cs.Msg) }); o.Panicked {
@@ -443,7 +486,55 @@ func runC18(c *ctx) {
 		}
 	})
 	c.parallel(c.pick(20000, 200000), func(i int, r *rng.R) { c18Expand(c, i, r) })
-	c.Required = []string{"producer/expand-and-fill-in-one-call", "producer/second-fill-from-the-same-map", "producer/wait", "producer/session", "producer/fill", "refused/wait", "refused/session", "refused/fill", "sequence-length/3"}
+	c.parallel(c.pick(6000, 60000), func(i int, r *rng.R) { c18Partial(c, i, r) })
+	// fills whose values bring names into the tree: the result passes the rule a fresh message passes (every name once),
+	// or the fill is refused
+	{
+		x := func() ast.ItemNode { return ast.NewUintNode(1, "q") }
+		mk := func(it ast.ItemNode) *ast.DataMessage {
+			return ast.NewDataMessage("t", 1, 1, 2, "H->E", it).SetSessionIDAndSystemBytes(9, []byte{1, 2, 3, 4})
+		}
+		cases := map[string]func() *ast.DataMessage{
+			"same-item-into-two-list-variables": func() *ast.DataMessage {
+				v := x()
+				return mk(ast.NewListNode("v1", "v2")).FillVariables(map[string]interface{}{"v1": v, "v2": v})
+			},
+			"equal-items-into-two-list-variables": func() *ast.DataMessage {
+				return mk(ast.NewListNode("v1", ast.NewListNode("v2"))).FillVariables(map[string]interface{}{"v1": x(), "v2": x()})
+			},
+			"rename-onto-a-name-in-another-child": func() *ast.DataMessage {
+				return mk(ast.NewListNode(ast.NewIntNode(1, "a"), ast.NewListNode(ast.NewBinaryNode("b")))).FillVariables(map[string]interface{}{"a": "b"})
+			},
+			"item-bringing-a-name-the-list-holds": func() *ast.DataMessage {
+				return mk(ast.NewListNode("lv", ast.NewListNode(ast.NewFloatNode(4, "q")))).FillVariables(map[string]interface{}{"lv": x()})
+			},
+			"list-variable-renamed-onto-a-slot-name": func() *ast.DataMessage {
+				return mk(ast.NewListNode("lv", ast.NewUintNode(2, "w"))).FillVariables(map[string]interface{}{"lv": "w"})
+			},
+			"ascii-variable-item-brought-twice": func() *ast.DataMessage {
+				a := ast.NewASCIINodeVariable("txt", 0, -1)
+				return mk(ast.NewListNode("v1", ast.NewUintNode(1, 3), "v2")).FillVariables(map[string]interface{}{"v1": a, "v2": a})
+			},
+		}
+		for name, f := range cases {
+			var got *ast.DataMessage
+			o := real.Try(func() { got = f() })
+			c.NoteBulk(1, 1)
+			c.Class("fill-results-pass-the-validity-rules")
+			if o.Panicked {
+				continue
+			}
+			seen := map[string]bool{}
+			for _, v := range got.Variables() {
+				if seen[v] {
+					c.Violation("C18/validity/fill-result-holds-a-name-twice", fmt.Sprintf("%s: the fill returned a message with Variables() = %q (a freshly constructed message with these items is refused)", name, got.Variables()), c18Case{Ops: []prodOp{{Kind: name}}})
+					break
+				}
+				seen[v] = true
+			}
+		}
+	}
+	c.Required = []string{"producer/expand-some-ellipses", "fill-results-pass-the-validity-rules", "producer/expand-and-fill-in-one-call", "producer/second-fill-from-the-same-map", "producer/wait", "producer/session", "producer/fill", "refused/wait", "refused/session", "refused/fill", "sequence-length/3"}
 }
 
 func replayC18(c *ctx, raw json.RawMessage) {
